@@ -225,6 +225,18 @@ func genCase(rt *rapid.T, nWork int) *Case {
 	}}
 	c.Pkgs = append(c.Pkgs, &Pkg{G: nest, OnBounds: true, HasErr: true})
 	nestIdx := len(c.Pkgs) - 1
+	// one wide grammar: a state with 36-44 actions and a goto row of the same width (long table
+	// rows are searched differently from short ones)
+	wide := &cfgm.G{Rules: []cfgm.Rule{{Name: "ra", Prods: []cfgm.Prod{{Terms: []cfgm.Term{{Kind: cfgm.KStar, Name: "rb"}}}}}, {Name: "rb"}}}
+	for i, n := 0, ri(rt, 36, 44, "wide"); i < n; i++ {
+		tn := fmt.Sprintf("T%c%c", 'A'+rune(i/26), 'A'+rune(i%26))
+		rn := fmt.Sprintf("w%c%c", 'a'+rune(i/26), 'a'+rune(i%26))
+		wide.Toks = append(wide.Toks, tn)
+		wide.Rules[1].Prods = append(wide.Rules[1].Prods, cfgm.Prod{Terms: []cfgm.Term{{Kind: cfgm.KSym, Name: rn}}})
+		wide.Rules = append(wide.Rules, cfgm.Rule{Name: rn, Prods: []cfgm.Prod{{Terms: []cfgm.Term{{Kind: cfgm.KSym, Name: tn, IsTok: true}}}}})
+	}
+	c.Pkgs = append(c.Pkgs, &Pkg{G: wide, OnBounds: false})
+	wideIdx := len(c.Pkgs) - 1
 	nP = len(c.Pkgs)
 	// one or two lexer-only packages with a mode graph (push / pop, nesting)
 	var lexTexts [][][]byte
@@ -247,14 +259,17 @@ func genCase(rt *rapid.T, nWork int) *Case {
 		w := &Workload{MaxProcs: []int{2, 8, 16}[k%3], Yield: []int{0, 1, 3, 7}[ri(rt, 0, 3, "yield")]}
 		nG := ri(rt, 2, 32, "ngor")
 		same := ri(rt, 0, nAll-1, "same") // package run by at least two goroutines
-		if ri(rt, 0, 1, "deepwork") == 0 {
+		switch ri(rt, 0, 3, "deepwork") {
+		case 0, 1:
 			same = nestIdx // several goroutines recover deep inside the nesting grammar at the same time
+		case 2:
+			same = wideIdx
 		}
 		for g := 0; g < nG; g++ {
 			var ts []Task
 			for j, nt := 0, ri(rt, 2, 10, "ntask"); j < nt; j++ {
 				pi := ri(rt, 0, nAll-1, "pi")
-				if g < 2 && j == 0 || same == nestIdx && ri(rt, 0, 2, "deepagain") == 0 {
+				if g < 2 && j == 0 || (same == nestIdx || same == wideIdx) && ri(rt, 0, 2, "deepagain") == 0 {
 					pi = same
 				}
 				if pi == nestIdx {
@@ -275,6 +290,14 @@ func genCase(rt *rapid.T, nWork int) *Case {
 					}
 					ts = append(ts, Task{Pkg: pi, Kind: "parse", Toks: w0, Limit: 2000 + 200*len(w0)})
 					run18deep++
+					continue
+				}
+				if pi == wideIdx {
+					var w0 []int
+					for q, nq := 0, ri(rt, 20, 60, "widelen"); q < nq; q++ {
+						w0 = append(w0, 2+ri(rt, 0, len(wide.Toks)-1, "widetok"))
+					}
+					ts = append(ts, Task{Pkg: pi, Kind: "parse", Toks: w0, Limit: 2000 + 200*len(w0)})
 					continue
 				}
 				if c.Pkgs[pi].S != nil {
